@@ -1,0 +1,6 @@
+//go:build !verif
+
+package binary
+
+// verifPool is a no-op unless built with the "verif" tag.
+func verifPool(kind, ev string, obj interface{}, clean bool) {}
